@@ -16,7 +16,7 @@ namespace KawinV.Flatten
 inductive Item (α : Type) where
   | scalar (x : α)
   | arr (shape : List Nat) (data : List α)
-  deriving Repr
+  deriving Repr, DecidableEq
 
 variable {α : Type}
 
